@@ -27,6 +27,8 @@ type c20Params struct {
 	// Carved: the hashes handed to Add are sub-slices of one arena (capacity reaching over the following hashes) instead
 	// of separately allocated slices; the caller never writes to the arena again.
 	Carved bool `json:"carved,omitempty"`
+	// OneBucket: every hash of the universe has the same first byte; adds come first, flushes are rare
+	OneBucket bool `json:"one_bucket,omitempty"`
 }
 
 func c20Universe(rng *rand.Rand, n int) [][]byte {
@@ -175,6 +177,16 @@ func c20Run(c *fw.Case, env *fw.Env) *fw.Obs {
 	c.P(&p)
 	rng := c.Rand()
 	univ := c20Universe(rng, p.Universe)
+	if p.OneBucket {
+		univ = nil
+		for i := 0; len(univ) < p.Universe; i++ {
+			h := make([]byte, 16)
+			h[0] = 0x42
+			h[14], h[15] = byte(i>>8), byte(i)
+			h[1+i%13] = byte(i * 7)
+			univ = append(univ, h)
+		}
+	}
 	back := &c20Backing{kind: p.Backing, path: filepath.Join(env.Dir, "hashset_"+c.ID)}
 	defer os.Remove(back.path)
 	r, err := back.open()
@@ -279,6 +291,8 @@ func c20Run(c *fw.Case, env *fw.Env) *fw.Obs {
 		for i := 0; i < p.Steps; i++ {
 			var op string
 			switch x := rng.Intn(20); {
+			case p.OneBucket && i < len(univ):
+				op = fmt.Sprintf("a%d", i) // every hash once; nothing is flushed before they are all pending
 			case x < 15:
 				// bias towards a small hot subset to force repeats and shared buckets
 				if rng.Intn(3) == 0 {
@@ -355,6 +369,10 @@ func init() {
 						l.Add("fixed", c20Params{Universe: 48, Batch: b, Backing: bk, Script: sc}, int64(1000+i))
 					}
 				}
+			}
+			// many hashes of one bucket pending in a single flush (a per-bucket counter of one byte would wrap)
+			for i := 0; i < l.N(6, 120); i++ {
+				l.Add("bulk", c20Params{Universe: 300 + 60*(i%5), Steps: 900, Batch: []uint32{0, 400, 1000}[i%3], Backing: []string{"file", "buffer"}[i%2], OneBucket: true}, int64(3000+i))
 			}
 			n := l.N(1000, 60000)
 			rng := l.Rng()
